@@ -391,6 +391,17 @@ func azMakeSymbol(rng *fw.Rand, s azref.Spec, mode int) *azSym {
 	if D < 1 {
 		D = 1
 	}
+	if mode == 3 && rng.Intn(4) == 0 {
+		// the empty message: no token at all, the one data codeword the mode message must count is
+		// padding (ws-1 one bits, completed and closed by the stuffing rule)
+		pad := make([]bool, ws-1)
+		for i := range pad {
+			pad[i] = true
+		}
+		if sym, ok := azref.Build(s, pad, 3); ok && sym.DataWords == 1 {
+			return &azSym{sym: sym, text: nil, want: "", trace: []string{"(empty message)"}, mode: "empty-message", bits: 0}
+		}
+	}
 	maxBits := D * ws
 	draws := 1
 	if mode == 0 {
@@ -883,6 +894,7 @@ func c11(c *fw.Ctx) {
 		c.Floor("symbols_"+m, 36)
 	}
 	c.Floor("symbols_with_exactly_3_check_words", 10)
+	c.Floor("symbols_empty-message", 10)
 	c.Floor("compact_symbols_with_64_data_words", int64(edge))
 	c.Floor("full_symbols_with_more_than_1024_data_words", 1)
 }
